@@ -18,7 +18,9 @@ import (
 	"flag"
 	"fmt"
 	"os"
+	"runtime"
 	"sort"
+	"strconv"
 	"strings"
 	"sync"
 	"sync/atomic"
@@ -122,6 +124,12 @@ type stats struct {
 	Overlap   int            `json:"scenarios_with_concurrent_live_packets"`
 	Shapes    int            `json:"distinct_shapes"`
 	StressOps int            `json:"stress_ops"`
+	ChurnOps  int            `json:"churn_ops"`
+	ChurnChk  int            `json:"churn_canary_checks"`
+	ChurnFail int            `json:"churn_canary_failures"`
+	ChurnLive int            `json:"churn_max_live_per_goroutine"`
+	ChurnLog  int            `json:"churn_sampled_events"`
+	ChurnRuns []string       `json:"churn_runs,omitempty"`
 	Race      bool           `json:"race_enabled"`
 	Races     int            `json:"races"`
 	Crash     string         `json:"crash,omitempty"`
@@ -334,6 +342,164 @@ func runStress(tr *vh.Trace, st *stats, fx []corpus.Fixture, seed uint64, sc, g,
 	tr.EmitBlock(evs)
 }
 
+// churn: many goroutines (>= 4 x GOMAXPROCS), each holding 1..6 live pooled packets of different lengths at once,
+// re-checking the content canary of ALL its live packets again and again (not only before its own Dispose) and
+// disposing several packets back to back, for a time budget.  Only a bounded sample of packets is logged with
+// got / disposing events (block ids, atomic sequence numbers: NoAlias holds for any subset of the live packets, so
+// judging a sample is sound); every canary failure is an event of its own.  Unsampled packets touch no shared
+// variable of the harness, so the race detector sees the library's synchronisation only.
+func runChurn(tr *vh.Trace, st *stats, ids *addrIDs, fx []corpus.Fixture, seed uint64, sc, g int, budget time.Duration, quota int, procs int) {
+	progress.Store(int64(sc))
+	racerep.Mark(sc)
+	prev := runtime.GOMAXPROCS(0)
+	if procs > 0 {
+		runtime.GOMAXPROCS(procs)
+	}
+	defer runtime.GOMAXPROCS(prev)
+	lens := []int{1, 14, 60, 200, 577, 1000, 1400, 1499, 1500}
+	type fail struct {
+		pkt  int
+		when string
+	}
+	type res struct {
+		ops, checks, maxLive int
+		recs                 []rec
+		fails                []fail
+		pmsg, site           string
+	}
+	out := make([]res, g)
+	var seq atomic.Int64
+	start := make(chan struct{})
+	var wg sync.WaitGroup
+	for gi := 0; gi < g; gi++ {
+		wg.Add(1)
+		go func(gi int) {
+			defer wg.Done()
+			o := &out[gi]
+			r := vh.NewRand(seed*7919 + uint64(gi)*131 + uint64(sc))
+			type hp struct {
+				p       gopacket.Packet
+				in      []byte
+				pid     int
+				sampled bool
+			}
+			var held []hp
+			n := 0
+			check := func(h hp, when string) {
+				o.checks++
+				if !bytes.Equal(h.p.Data(), h.in) && len(o.fails) < 50 {
+					o.fails = append(o.fails, fail{h.pid, when})
+				}
+			}
+			dispose := func(k int) {
+				h := held[k]
+				held = append(held[:k], held[k+1:]...)
+				check(h, "before-own-dispose")
+				if h.sampled {
+					o.recs = append(o.recs, rec{kind: "disposing", pkt: h.pid, ok: bytes.Equal(h.p.Data(), h.in), seq: seq.Add(1)})
+				}
+				if pp, ok := h.p.(gopacket.PooledPacket); ok {
+					pp.Dispose()
+				}
+				o.ops++
+			}
+			<-start
+			now := time.Now()
+			deadline := now.Add(budget)
+			slot, nextSample, nsampled := budget/time.Duration(quota), now, 0 // samples are spread over the whole run
+			msg, site, pn := vh.Guard(func() {
+				for ; now.Before(deadline); now = time.Now() {
+					ticks.Tick(gi)
+					target := 1 + r.Intn(6)
+					for len(held) < target {
+						n++
+						pid := gi*1000000 + n
+						d, first := input(fx, r, lens[r.Intn(len(lens))], uint64(sc)<<40|uint64(pid))
+						p := gopacket.NewPacket(d, first, gopacket.DecodeOptions{Pool: true, Lazy: r.Intn(4) == 0})
+						h := hp{p: p, in: d, pid: pid}
+						if nsampled < quota && !now.Before(nextSample) {
+							h.sampled = true
+							nsampled++
+							nextSample = now.Add(slot)
+							dd := p.Data()
+							o.recs = append(o.recs, rec{kind: "got", pkt: pid, addr: uintptr(unsafe.Pointer(unsafe.SliceData(dd))), ok: bytes.Equal(dd, d), seq: seq.Add(1)})
+						}
+						check(h, "after-newpacket")
+						held = append(held, h)
+						o.ops++
+					}
+					if len(held) > o.maxLive {
+						o.maxLive = len(held)
+					}
+					for rounds := 1 + r.Intn(4); rounds > 0; rounds-- {
+						for _, h := range held {
+							check(h, "while-live")
+						}
+						if r.Intn(3) == 0 {
+							runtime.Gosched()
+						}
+					}
+					for k := 1 + r.Intn(len(held)); k > 0 && len(held) > 0; k-- { // several Disposes back to back
+						dispose(r.Intn(len(held)))
+					}
+					for _, h := range held {
+						check(h, "after-other-dispose")
+					}
+				}
+				for len(held) > 0 {
+					dispose(len(held) - 1)
+				}
+			})
+			if pn {
+				o.pmsg, o.site = msg, site
+			}
+		}(gi)
+	}
+	close(start)
+	wg.Wait()
+	src := "churn-procs" + strconv.Itoa(runtime.GOMAXPROCS(0))
+	evs := []vh.M{{"op": "pstart", "sc": sc, "sig": "", "threads": g, "pkts": 0, "src": src, "budget_ms": int(budget / time.Millisecond)}}
+	var all []rec
+	ops, checks, nfail := 0, 0, 0
+	for gi := range out {
+		o := &out[gi]
+		all = append(all, o.recs...)
+		ops += o.ops
+		checks += o.checks
+		if o.maxLive > st.ChurnLive {
+			st.ChurnLive = o.maxLive
+		}
+	}
+	sort.Slice(all, func(i, j int) bool { return all[i].seq < all[j].seq })
+	for _, x := range all {
+		if x.kind == "got" {
+			evs = append(evs, vh.M{"op": "got", "sc": sc, "seq": int(x.seq), "pkt": x.pkt, "block": ids.id(x.addr), "same": x.ok, "sig": "got"})
+		} else {
+			evs = append(evs, vh.M{"op": "disposing", "sc": sc, "seq": int(x.seq), "pkt": x.pkt, "canary": x.ok, "sig": "disposing"})
+		}
+	}
+	st.ChurnLog += len(all)
+	// every canary failure is an event; the scenario marker in front of each lets the trace module look at all of them
+	for gi := range out {
+		o := &out[gi]
+		if o.pmsg != "" {
+			evs = append(evs, vh.M{"op": "pstart", "sc": sc, "sig": "", "src": src}, vh.M{"op": "panic", "sc": sc, "pkt": 0, "msg": o.pmsg, "sig": vh.SiteSig(corpus.Repo(), o.site)})
+		}
+		for _, f := range o.fails {
+			nfail++
+			evs = append(evs, vh.M{"op": "pstart", "sc": sc, "sig": "", "src": src},
+				vh.M{"op": "stress", "sc": sc, "g": gi + 1, "pkt": f.pkt, "ops": 0, "canary": false, "sig": "churn-" + f.when})
+		}
+	}
+	evs = append(evs, vh.M{"op": "pstart", "sc": sc, "sig": "", "src": src},
+		vh.M{"op": "stress", "sc": sc, "g": 0, "pkt": 0, "ops": ops, "canary": true, "sig": "churn-summary", "checks": checks, "goroutines": g, "failures": nfail})
+	st.ChurnOps += ops
+	st.ChurnChk += checks
+	st.ChurnFail += nfail
+	st.ChurnRuns = append(st.ChurnRuns, fmt.Sprintf("%s: %d goroutines, %d ops, %d canary checks, %d failures", src, g, ops, checks, nfail))
+	tr.EmitBlock(evs)
+}
+
 func parseOrders(s scen) ([][]op, map[int]bool) {
 	var out [][]op
 	for _, th := range s.Orders {
@@ -386,6 +552,9 @@ func main() {
 	nrand := flag.Int("rand", 0, "seeded random scenarios beyond the model's bound (8 threads x 4 packets)")
 	stress := flag.Int("stress", 0, "iterations per goroutine of the unlogged stress loop")
 	g := flag.Int("g", 8, "goroutines (random scenarios, stress)")
+	churn := flag.Int("churn", 0, "time budget in ms of each churn run (many goroutines holding several live pooled packets)")
+	churnG := flag.Int("churng", 0, "goroutines of a churn run (default: max(64, 4 x NumCPU))")
+	procsList := flag.String("procs", "2,0", "GOMAXPROCS settings for the churn runs (0 = NumCPU)")
 	child := flag.Bool("child", false, "internal")
 	flag.Parse()
 
@@ -461,6 +630,26 @@ func main() {
 	if *stress > 0 {
 		sc++
 		runStress(tr, st, fx, *seed, sc, *g, *stress)
+	}
+	if *churn > 0 {
+		cg := *churnG
+		if cg <= 0 {
+			cg = 4 * runtime.NumCPU()
+			if cg < 64 {
+				cg = 64
+			}
+		}
+		for _, ps := range strings.Split(*procsList, ",") {
+			pv, err := strconv.Atoi(strings.TrimSpace(ps))
+			if err != nil {
+				vh.Fatal("bad -procs:", *procsList)
+			}
+			if pv <= 0 {
+				pv = runtime.NumCPU()
+			}
+			sc++
+			runChurn(tr, st, ids, fx, *seed, sc, cg, time.Duration(*churn)*time.Millisecond, 10, pv)
+		}
 	}
 	tr.Close()
 	st.Scenarios, st.Events, st.Blocks, st.Shapes = sc, tr.N, len(ids.m), len(shapes)
